@@ -28,7 +28,7 @@ Proof.
 Qed.
 
 Definition dres_ok (r : dres) : Prop :=
-  match r with DFault => False | DDir _ _ _ _ p _ => 1 <= p | DEnd p _ => 1 <= p | DInvalid => True end.
+  match r with DFault => False | DDir _ _ _ _ p _ => 1 <= p | DEnd p _ => 1 <= p | DInvalid | DUnm => True end.
 
 Lemma read_dir_ok tb s end_ args : end_ <= Z.of_nat (length s) ->
   forall fuel pos argpos colon at_ params, 1 <= pos -> dres_ok (read_dir tb s end_ args pos argpos colon at_ params fuel).
@@ -41,13 +41,18 @@ Proof.
   destruct (N.eqb b 44).
   { destruct (colon || at_); [exact I|]. destruct (get_some s (pos + 1 - 2)) as [pv Hpv]; [lia|]. rewrite Hpv. apply IH. lia. }
   destruct (N.eqb b 35); [apply IH; lia|].
-  destruct (N.eqb b 118).
+  destruct (N.eqb b 118 || N.eqb b 86)%bool.
   { destruct (0 <=? argpos) eqn:Ea; [|apply IH; lia]. apply Z.leb_le in Ea.
     destruct (Z.of_nat (length args) <=? argpos) eqn:El; [exact I|]. apply Z.leb_gt in El.
     destruct (nth_error args (Z.to_nat argpos)) eqn:En; [apply IH; lia|]. apply nth_error_None in En. lia. }
   destruct (N.eqb b 39).
-  { destruct (param_end_bounds tb s end_ He (length s) (pos + 1)) as (e & -> & Hb2); [lia|lia|].
-    destruct (slice_some s (pos + 1) e) as [l ->]; [lia|lia|lia|]. destruct l; [exact I|apply IH; lia]. }
+  { destruct (pos + 1 <? end_) eqn:E1; cbn [negb]; [|exact I]. apply Z.ltb_lt in E1.
+    destruct (slice s (pos + 1) end_) as [l|] eqn:Es.
+    2:{ destruct (slice_some s (pos + 1) end_) as [l Hl]; [lia|lia|lia|]. rewrite Hl in Es. discriminate. }
+    destruct l as [|b1 l].
+    { unfold slice in Es. destruct ((0 <=? pos + 1) && (pos + 1 <=? end_) && (end_ <=? Z.of_nat (length s)))%bool; [|discriminate].
+      injection Es as Es. apply (f_equal (@length byte)) in Es. rewrite firstn_length, skipn_length in Es. cbn in Es. lia. }
+    destruct (b1 <? 128)%N; [apply IH; lia|exact I]. }
   destruct (N.eqb b 45 || is_digit b).
   { destruct (param_end_bounds tb s end_ He (length s) (pos + 1 - 1)) as (e & -> & Hb2); [lia|lia|].
     destruct (slice_some s (pos + 1 - 1) e) as [l ->]; [lia|lia|lia|]. destruct (parse_int l); [apply IH; lia|exact I]. }
@@ -147,7 +152,8 @@ Proof.
   apply Z.ltb_lt in E. destruct (get_some s pos) as [b Hb]; [lia|]. rewrite Hb.
   destruct (N.eqb b 126); cbn [negb]; [|apply IH; lia].
   pose proof (read_dir_ok tb s end_ args He (S (length s)) (pos + 1) argpos false false [] ltac:(lia)) as Hok.
-  destruct (read_dir tb s end_ args (pos + 1) argpos false false [] (S (length s))) as [l c a ps p ap| | |p ap]; cbn [dres_ok] in Hok.
+  destruct (read_dir tb s end_ args (pos + 1) argpos false false [] (S (length s))) as [l c a ps p ap| | |p ap|]; cbn [dres_ok] in Hok.
+  5:{ discriminate. }
   - destruct (known_letter tb l); cbn [negb]; [|discriminate].
     pose proof (dir_t_no_fault a ps out) as Ht.
     repeat match goal with
@@ -179,7 +185,7 @@ Proof.
   destruct (N.eqb b 64); [destruct at_; [exact I|apply Hstep; lia]|].
   destruct (N.eqb b 44); [destruct (colon || at_); [exact I|]; destruct (get s (pos + 1 - 2)); [apply Hstep; lia|exact I]|].
   destruct (N.eqb b 35); [apply Hstep; lia|].
-  destruct (N.eqb b 118).
+  destruct (N.eqb b 118 || N.eqb b 86)%bool.
   { destruct (0 <=? argpos); [|apply Hstep; lia]. destruct (Z.of_nat (length args) <=? argpos); [exact I|].
     destruct (nth_error args (Z.to_nat argpos)); [apply Hstep; lia|exact I]. }
   assert (Hpe : forall fuel0 p0 e, param_end tb s end_ p0 fuel0 = Some e -> p0 <= e).
@@ -187,8 +193,8 @@ Proof.
     destruct (p0 <? end_); [|intros H; injection H as <-; lia]. destruct (get s p0); [|discriminate].
     destruct (ends_param tb b0); [intros H; injection H as <-; lia|]. intros H. apply IH0 in H. lia. }
   destruct (N.eqb b 39).
-  { destruct (param_end tb s end_ (pos + 1) (length s)) as [e|] eqn:Ee; [|exact I]. apply Hpe in Ee.
-    destruct (slice s (pos + 1) e) as [[|x l]|]; try exact I. apply Hstep. lia. }
+  { destruct (pos + 1 <? end_); cbn [negb]; [|exact I].
+    destruct (slice s (pos + 1) end_) as [[|x l]|]; try exact I. destruct (x <? 128)%N; [apply Hstep; lia|exact I]. }
   destruct (N.eqb b 45 || is_digit b); [|lia].
   destruct (param_end tb s end_ (pos + 1 - 1) (length s)) as [e|] eqn:Ee; [|exact I].
   destruct (slice s (pos + 1 - 1) e) as [l|] eqn:Es; [|exact I].
@@ -210,7 +216,7 @@ Proof.
     destruct (get s pos); [|discriminate].
     destruct (N.eqb b 126); cbn [negb]; [|apply IH; lia].
     pose proof (read_dir_advances tb s end_ args (S (length s)) (pos + 1) argpos false false []) as Ha.
-    destruct (read_dir tb s end_ args (pos + 1) argpos false false [] (S (length s))) as [l c a ps p ap| | |p ap]; try discriminate.
+    destruct (read_dir tb s end_ args (pos + 1) argpos false false [] (S (length s))) as [l c a ps p ap| | |p ap|]; try discriminate.
     + destruct (known_letter tb l); cbn [negb]; [|discriminate].
       repeat match goal with
              | |- (if ?c then _ else _) <> _ => destruct c
